@@ -238,6 +238,24 @@ def r13_2(ctx, prog, crate):
             d = direct_place(x, {"k": "copy", "p": {"l": 0, "proj": [], "ty": ""}})
             ok = ok and not any(z.kind in ("unop", "binop") for z in x.prov.local_src(0))
         ctx.check(ok, "R13.2", ["is_match", "predicate-is-filter-match-on-path"], "the position predicate is not |f| f.is_match(entry_path)", x.where(0))
+    # the accessors is_match and insert rely on: all() is the whole items slice, split_index() the stored index, set_split_index stores its argument
+    from lib.patheval import PathEval as _PE
+    SV = "util::split_vec::SplitVec::"
+    acc = {n_: prog.body(SV + n_, crate) for n_ in ("all", "split_index", "set_split_index")}
+    if ctx.anchor("R13.2", "SplitVec accessors", sum(1 for x in acc.values() if x), 3):
+        for x in acc.values():
+            ctx.saw(x)
+        sa = _PE(acc["all"]).run()
+        ok = bool(sa) and len(sa) == 1 and sa[0].ret[0] in ("sptr", "ptr") and isinstance(sa[0].ret[1][0], tuple) and sa[0].ret[1][0][0] == "ret" and \
+            sa[0].ret[1][0][1].endswith("Deref>::deref") and not sa[0].ret[1][1] and len(sa[0].calls) == 1 and sa[0].calls[0][1] == (("sptr", (1, ("items",))),)
+        ok = ok or (bool(sa) and len(sa) == 1 and sa[0].ret[0] == "site" and sa[0].ret[1].endswith(("Vec::as_slice", "Deref>::deref")) and sa[0].ret[3] == (("sptr", (1, ("items",))),))
+        ctx.check(ok, "R13.2", ["SplitVec::all", "whole-slice"], "SplitVec::all returns %s, expected the whole items slice (both halves: skip filters first)" % (sa[0].ret if sa else None,), acc["all"].where(0))
+        si_ = _PE(acc["split_index"]).run()
+        ctx.check(bool(si_) and all(s_.ret == ("arg", 1, ("split_index",)) for s_ in si_), "R13.2", ["SplitVec::split_index", "stored-index"],
+                  "SplitVec::split_index returns %s" % ([s_.ret for s_ in si_] if si_ else None,), acc["split_index"].where(0))
+        ss_ = _PE(acc["set_split_index"]).run()
+        ctx.check(bool(ss_) and len(ss_) == 1 and ss_[0].mem == {(1, ("split_index",)): ("arg", 2, ())}, "R13.2", ["SplitVec::set_split_index", "stores-its-argument"],
+                  "SplitVec::set_split_index writes %s" % (ss_[0].mem if ss_ else None,), acc["set_split_index"].where(0))
     # SplitVec::insert
     ins = prog.body("util::split_vec::SplitVec::insert", crate)
     if ctx.anchor("R13.2", "SplitVec::insert", 1 if ins else 0, 1):
